@@ -18,7 +18,7 @@ VERIF = os.path.dirname(os.path.dirname(os.path.abspath(__file__)))
 DRIVER = os.path.join(VERIF, 'driver', 'instantiate.cpp')
 CACHE = os.path.join(VERIF, '.cache')
 MPI_INC = '/usr/lib/x86_64-linux-gnu/openmpi/include'
-CACHE_VERSION = 23
+CACHE_VERSION = 24
 
 
 class AnalysisBroken(Exception):
@@ -696,6 +696,15 @@ class Builder:
                     if not hasattr(self.p, 'static_consts'):
                         self.p.static_consts = {}
                     self.p.static_consts[c.get('id')] = int(leaves[0]['value'])
+                else:
+                    # any other constant expression (`static constexpr openmode mode = out | app;`): referenced
+                    # uses are lowered as the initialiser expression itself
+                    init = [x for x in c.get('inner', ()) if isinstance(x, dict) and x.get('kind')
+                            and not x['kind'].endswith('Comment')]
+                    if init:
+                        if not hasattr(self.p, 'static_inits'):
+                            self.p.static_inits = {}
+                        self.p.static_inits[c.get('id')] = init[0]
             elif ck in FUNC_KINDS:
                 self.func(c, q, r, pattern)
             elif ck == 'FunctionTemplateDecl':
